@@ -75,9 +75,11 @@ class AppendOnlyLoop:
         fr = I.frames[-1]
         targets = {n.id for n in ast.walk(st.target) if isinstance(n, ast.Name)}
         ok, detail = scan_append_only(st.body, self.list_var, targets, self.allowed_calls)
-        I.ctx.site_obligs.append((f"loop_frame[{fr.fi.name}:{st.lineno}]", ok, len(I.ctx.pc)))
         if not ok:
+            # side condition of the rule not met: the rule does not apply, the path is undecided (never a refutation)
             I.ctx.notes.append(("loop_frame_detail", detail))
+            raise Outside("append-only loop rule not applicable: " + detail)
+        I.ctx.site_obligs.append((f"loop_frame[{fr.fi.name}:{st.lineno}]", ok, len(I.ctx.pc)))
         for (qn, lvar, calls, lvars) in self.callee_scans:
             fi = I.repo.get(qn)
             loopv = set(lvars)
@@ -85,9 +87,10 @@ class AppendOnlyLoop:
                 if isinstance(n, ast.For):
                     loopv |= {x.id for x in ast.walk(n.target) if isinstance(x, ast.Name)}
             ok2, detail2 = scan_append_only(fi.node.body, lvar, loopv, set(calls), private_locals=True)
-            I.ctx.site_obligs.append((f"callee_frame[{fi.name}]", ok2, len(I.ctx.pc)))
             if not ok2:
                 I.ctx.notes.append(("callee_frame_detail", detail2))
+                raise Outside(f"append-only loop rule not applicable (callee {fi.name}): " + detail2)
+            I.ctx.site_obligs.append((f"callee_frame[{fi.name}]", ok2, len(I.ctx.pc)))
         snap = dict(fr.locals)
         if isinstance(snap.get(self.list_var), PyList):
             snap[self.list_var] = PyList(snap[self.list_var].items)
